@@ -152,9 +152,9 @@ func maxi(a, b int) int {
 
 type SexpField SexpHash
 
-// valueStoredUnder finds the value stored under this very key object,
-// without comparing keys; for printing entries whose key HashGet
-// cannot compare.
+// valueStoredUnder finds the value stored under this very key object;
+// if the key object was replaced by a later update of the same key, it
+// falls back to a plain lookup without dot-path interpretation.
 func (hash *SexpHash) valueStoredUnder(key Sexp) Sexp {
 	for _, bucket := range hash.Map {
 		for _, pair := range bucket {
@@ -162,6 +162,9 @@ func (hash *SexpHash) valueStoredUnder(key Sexp) Sexp {
 				return pair.Tail
 			}
 		}
+	}
+	if val, err := hash.HashGetDefault(nil, key, SexpNull); err == nil {
+		return val
 	}
 	return SexpNull
 }
@@ -175,12 +178,10 @@ func (f *SexpField) FieldWidths() []int {
 	hash := (*SexpHash)(f)
 	wide := []int{}
 	for _, key := range hash.KeyOrder {
-		val, err := hash.HashGet(nil, key)
-		if err != nil {
-			// a key that cannot be looked up again (e.g. an array
-			// holding a function) must not panic the printer.
-			val, err = hash.valueStoredUnder(key), nil
-		}
+		// the printer shows the stored entries; it must not interpret
+		// the key (dot-symbol paths, one-element arrays) or panic on a
+		// key that cannot be compared (an array holding a function).
+		val, err := hash.valueStoredUnder(key), error(nil)
 		str := ""
 		if err == nil {
 			switch s := key.(type) {
@@ -205,12 +206,10 @@ func (f *SexpField) AlignString(pad []int) string {
 	str := " (" + hash.TypeName + " "
 	spc := " "
 	for i, key := range hash.KeyOrder {
-		val, err := hash.HashGet(nil, key)
-		if err != nil {
-			// a key that cannot be looked up again (e.g. an array
-			// holding a function) must not panic the printer.
-			val, err = hash.valueStoredUnder(key), nil
-		}
+		// the printer shows the stored entries; it must not interpret
+		// the key (dot-symbol paths, one-element arrays) or panic on a
+		// key that cannot be compared (an array holding a function).
+		val, err := hash.valueStoredUnder(key), error(nil)
 		r := ""
 		if err == nil {
 			switch s := key.(type) {
@@ -250,12 +249,10 @@ func (f *SexpField) SexpString(ps *PrintState) string {
 	str := " (" + hash.TypeName + " "
 
 	for i, key := range hash.KeyOrder {
-		val, err := hash.HashGet(nil, key)
-		if err != nil {
-			// a key that cannot be looked up again (e.g. an array
-			// holding a function) must not panic the printer.
-			val, err = hash.valueStoredUnder(key), nil
-		}
+		// the printer shows the stored entries; it must not interpret
+		// the key (dot-symbol paths, one-element arrays) or panic on a
+		// key that cannot be compared (an array holding a function).
+		val, err := hash.valueStoredUnder(key), error(nil)
 		if err == nil {
 			switch s := key.(type) {
 			case *SexpStr:
